@@ -28,7 +28,8 @@ Good(w)        == w.fail = ""
 Fail(w, why)   == IF Good(w) THEN [w EXCEPT !.fail = why] ELSE w
 Work(s)        == [s EXCEPT !.inexact = <<>>, !.junk = <<>>] @@ [fail |-> ""]
 Strip(w)       == [k \in (DOMAIN w) \ {"fail"} |-> w[k]]
-Tx(s, w)       == IF Good(w) THEN [st |-> Strip(w), res |-> "ok"] ELSE [st |-> s, res |-> "err"]
+\* a failed transaction rolls the store back, but not the process-global of the staking hooks (vol)
+Tx(s, w)       == IF Good(w) THEN [st |-> Strip(w), res |-> "ok"] ELSE [st |-> [s EXCEPT !.vol = w.vol], res |-> "err"]
 
 Rank(cfg, a)   == IndexOf(cfg.accs, a)
 
@@ -735,6 +736,62 @@ TxPayAddrSid(cfg, s, ev) ==
     ELSE IF BoundDid(s, ev.acc) # ev.did THEN Tx(s, Fail(w0, "binding not found"))
     ELSE Tx(s, [w0 EXCEPT !.pay = Put(@, "did", [did |-> ev.did, a |-> ev.acc])])
 
+\* ------------------------------------------------------------------ x/staking messages and the x/node staking hooks
+\* Exchange rate 1 (no slashing in the modelled world): shares = tokens.  vol is the package variable
+\* sharesBeforeModified of x/node/keeper/hooks.go together with the delegation it was recorded for:
+\* "0" when clear, otherwise "<shares>.000000000000000000@<delegator>/<validator>".
+VolOf(n, d, v) == ToString(n) \o ".000000000000000000@" \o d \o "/" \o v
+ValOf(w, v) == Get(w.vals, "v", v)
+SetDeleg(cfg, w, d, v, shares) ==
+    LET others == SelectSeq(w.delegs, LAMBDA x : ~(x.d = d /\ x.v = v))
+        rankV(x) == IndexOf(cfg.vals, x.v) * 1000 + IndexOf(cfg.accsRaw, x.d)
+        rec == [d |-> d, v |-> v, shares |-> shares]
+    IN IF shares < 0 THEN [w EXCEPT !.delegs = others]
+       ELSE [w EXCEPT !.delegs = SelectSeq(others, LAMBDA x : rankV(x) < rankV(rec)) \o <<rec>> \o SelectSeq(others, LAMBDA x : rankV(x) > rankV(rec))]
+
+\* hooks.go verifySuperStorageNodes(valAddr, accAddr, beforeDelegationRemoved); before = shares recorded by the Before hook (or -1)
+VerifySuper(cfg, w, v, d, removed, before) ==
+    LET cur == DelegShares(w, d, v)
+        sub == IF before <= 0 THEN 0 ELSE IF before > cur THEN before - cur ELSE IF removed THEN cur ELSE 0
+        mine == SelectSeq(w.delegs, LAMBDA x : x.v = v)
+        step(acc, x) ==
+            IF ~HasNode(acc, x.d) THEN acc
+            ELSE LET n == NodeOf(acc, x.d)
+                     demote == IF n.role = 1 THEN SetNode(cfg, acc, [n EXCEPT !.role = 0]) ELSE acc
+                 IN IF ~(n.val = "" \/ n.val = v) THEN acc
+                    ELSE IF removed /\ x.d = d THEN demote
+                    ELSE IF ~HasBits(n.status, SuperReq) THEN demote
+                    ELSE IF ~HasPledge(acc, x.d) \/ PledgeOf(acc, x.d).cap < cfg.vstorThreshold THEN demote
+                    ELSE IF ShareOk(cfg, acc, x.d, v, sub) THEN (IF n.role = 0 THEN SetNode(cfg, acc, [n EXCEPT !.role = 1, !.val = v]) ELSE acc)
+                    ELSE demote
+    IN [FoldLeft(step, w, mine) EXCEPT !.vol = "0"]
+
+TxDelegate(cfg, s, ev) ==
+    LET w0 == Work(s)  d == ev.creator  v == ev.val  amt == ev.amount IN
+    IF ~Has(s.vals, "v", v) \/ amt <= 0 THEN Tx(s, Fail(w0, "no validator"))
+    ELSE LET old == DelegShares(s, d, v)
+             w1 == IF old >= 0 THEN [w0 EXCEPT !.vol = VolOf(old, d, v)] ELSE w0
+             pool == IF ValOf(s, v).status = 3 THEN "m_bonded_tokens_pool" ELSE "m_not_bonded_tokens_pool"
+             w2 == Send(w1, d, pool, amt)
+         IN IF ~Good(w2) THEN Tx(s, w2)
+            ELSE LET w3 == [w2 EXCEPT !.vals = Put(@, "v", [ValOf(s, v) EXCEPT !.shares = @ + amt, !.tokens = @ + amt])]
+                     w4 == SetDeleg(cfg, w3, d, v, Max2(old, 0) + amt)
+                 IN Tx(s, VerifySuper(cfg, w4, v, d, FALSE, IF old >= 0 THEN old ELSE -1))
+
+TxUndelegate(cfg, s, ev) ==
+    LET w0 == Work(s)  d == ev.creator  v == ev.val  amt == ev.amount IN
+    IF ~Has(s.vals, "v", v) \/ amt <= 0 \/ DelegShares(s, d, v) < 0 THEN Tx(s, Fail(w0, "no delegation"))
+    ELSE LET old == DelegShares(s, d, v) IN
+         IF amt > old THEN Tx(s, Fail(w0, "invalid shares amount"))
+         ELSE LET w1 == [w0 EXCEPT !.vol = VolOf(old, d, v)]
+                  left == old - amt
+                  \* hooks run BEFORE the validator's shares are reduced
+                  w2 == IF left = 0 THEN SetDeleg(cfg, VerifySuper(cfg, w1, v, d, TRUE, old), d, v, -1)
+                        ELSE VerifySuper(cfg, SetDeleg(cfg, w1, d, v, left), v, d, FALSE, old)
+                  w3 == [w2 EXCEPT !.vals = Put(@, "v", [ValOf(s, v) EXCEPT !.shares = @ - amt, !.tokens = @ - amt])]
+                  w4 == IF ValOf(s, v).status = 3 THEN Send(w3, "m_bonded_tokens_pool", "m_not_bonded_tokens_pool", amt) ELSE w3
+              IN Tx(s, w4)
+
 \* ------------------------------------------------------------------ blocks
 \* sao/keeper HandleTimeoutOrder
 HandleTimeoutOrder(cfg, w, id) ==
@@ -878,6 +935,8 @@ Apply(cfg, s, ev) ==
       [] ev.kind = "RemoveVstorage" -> TxRemoveVstorage(cfg, s, ev)
       [] ev.kind = "Claim"          -> TxClaim(cfg, s, ev)
       [] ev.kind = "PayAddr"        -> TxPayAddr(cfg, s, ev)
+      [] ev.kind = "Delegate"       -> TxDelegate(cfg, s, ev)
+      [] ev.kind = "Undelegate"     -> TxUndelegate(cfg, s, ev)
       [] ev.kind = "Binding"        -> TxBinding(cfg, s, ev)
       [] ev.kind = "DidUpdate"      -> TxDidUpdate(cfg, s, ev)
       [] ev.kind = "PayAddrSid"     -> TxPayAddrSid(cfg, s, ev)
